@@ -176,7 +176,7 @@ pub fn check_one_src(
     }
     let what = format!(
         "input {:?} cfg [{}]: call #{} returned {}, {} says {}",
-        lossy(input),
+        lossy_head(input),
         cfg_show(cfg),
         i,
         cur.get(i).map_or("<nothing: trace ended>".to_string(), |o| format!(
@@ -255,7 +255,7 @@ impl<'a> Run<'a> {
                 Ok(t) => t,
                 Err(e) => {
                     acc.evaluations += 1;
-                    acc.violation((ln, i * 128), format!("input {:?}: {}", lossy(&input), e), case_json3(&input, NEUTRAL, this.neutral, this.script.as_ref()));
+                    acc.violation((ln, i * 128), format!("input {:?}: {}", lossy_head(&input), e), case_json3(&input, NEUTRAL, this.neutral, this.script.as_ref()));
                     return;
                 }
             };
@@ -282,7 +282,7 @@ impl<'a> Run<'a> {
                         acc.violation((ln, i * 128 + cfg as u64), v.what, case_json3(&input, cfg, this.neutral, this.script.as_ref()));
                     } else {
                         for id in &v.known {
-                            acc.known(id, || format!("{:?} cfg [{}]", lossy(&input), cfg_show(cfg)));
+                            acc.known(id, || format!("{:?} cfg [{}]", lossy_head(&input), cfg_show(cfg)));
                         }
                     }
                 }
@@ -418,7 +418,7 @@ pub fn replay(case: &Value) -> Result<(), String> {
     let known = Known::load();
     let script = case.get("script").map(Script::from_json);
     let v = check_one_src(&input, &truth, cfg, &known, &mut obs, &mut exp, script.as_ref());
-    println!("input:  {:?}\nconfig: {}\nsource: {}", lossy(&input), cfg_show(cfg), script.as_ref().map_or("slice".to_string(), |s| format!("buffered {}", s.to_json())));
+    println!("input:  {:?}\nconfig: {}\nsource: {}", lossy_head(&input), cfg_show(cfg), script.as_ref().map_or("slice".to_string(), |s| format!("buffered {}", s.to_json())));
     println!("observed:");
     for o in show_trace(&obs) {
         println!("  {}", o.as_str().unwrap());
